@@ -145,16 +145,7 @@ Fixpoint tlvs_ser (pad8_orig : bool) (fix_ : bool) (os : list tlv) (length : Z)
       ((if pad =? 0 then [] else [pad_seg pad]) ++ seg :: segs, o' :: t', total)
   end.
 
-(* the real run writes each segment into the region returned by PrependBytes(l); a write past
-   the end of the region would be an index panic *)
-Fixpoint write_segs (region : list Z) (off : nat) (segs : list (list Z)) : option (list Z) :=
-  match segs with
-  | [] => Some region
-  | s :: t =>
-      if Nat.leb (off + length s) (length region)
-      then write_segs (n6_put region off s) (off + length s) t
-      else None
-  end.
+(* the real run writes each segment into the region returned by PrependBytes(l): N6Lib.write_segs *)
 
 (* IPv6HopByHop.SerializeTo 485-515 = IPv6Destination.SerializeTo 726-756.
    Returns the buffer contents afterwards and the layer afterwards (also on the error path:
